@@ -62,8 +62,10 @@ class Concrete(Abstract):
 class Callable:
   def __call__(self, a=1, b=2): return (a, b)
 callable_obj = Callable()
+import functools
+fn_deco = functools.wraps(fn)(lambda *args, **kwargs: fn(*args, **kwargs))    # an ordinary decorator around fn: another object
 '''
-SHAPES = ['fn', 'WithInit', 'WithNew', 'WithBoth', 'Neither', 'WithMeta', 'Slotted', 'NT', 'Concrete', 'builtin', 'callable_obj']
+SHAPES = ['fn', 'WithInit', 'WithNew', 'WithBoth', 'Neither', 'WithMeta', 'Slotted', 'NT', 'Concrete', 'builtin', 'callable_obj', 'fn_deco']
 APIS = ['configurable', 'register', 'external']
 
 
@@ -86,7 +88,7 @@ class RegEngine(Engine):
   run_fn = 'Registry.run'
 
   def budget(self, tier):
-    return 400 if tier == 'quick' else 10000
+    return 1200 if tier == 'quick' else 20000
 
   def corpus(self):
     base = {'api': 'register', 'shape': 'WithInit', 'name': None, 'module': None, 'allow': [], 'deny': [], 'lists_ok': True, 'scoped': False}
@@ -125,6 +127,15 @@ class RegEngine(Engine):
         if req['shape'] == 'callable_obj' and req['name'] is None:
           req['name'] = 'cobj'       # a callable object has no __name__: the API requires an explicit name
         ops.append(['reg', req])
+        if rng.random() < 0.12 and req['name'] in ('x', 'y', 'pkg.q') and req['module'] in (None, 'm', 'm.n'):
+          # a DIFFERENT object that is itself registered already (under another name), or a decorator around the object
+          # registered first, asks for the full name that is now taken
+          other = dict(req, shape=rng.choice([sh for sh in SHAPES if sh not in (req['shape'], 'callable_obj')] +
+                                            (['fn_deco'] * 4 if req['shape'] == 'fn' else [])),
+                       api=rng.choice(APIS), allow=[], deny=[], lists_ok=True)
+          if other['shape'] != 'fn_deco' or rng.random() < 0.5:
+            ops.append(['reg', dict(other, name='elsewhere')])
+          ops.append(['reg', other])
       elif r < 0.79:
         ops.append(['interactive_block', rng.random() < 0.6])     # with gin.config.interactive_mode(): ... (maybe raising)
       elif r < 0.82:
@@ -187,6 +198,7 @@ class RegEngine(Engine):
     builtin_keys = {k for k, _ in cfg._REGISTRY.items()}  # pylint: disable=protected-access
     accepted = 0
     mutated = set()     # classes gin.configurable has (by design) wrapped in place
+    held = {}           # full name -> the shape registered under it (the harness's own bookkeeping)
     for op in case:
       if op[0] != 'reg':
         if op[0] == 'interactive_block':
@@ -214,6 +226,7 @@ class RegEngine(Engine):
       obj = self.obj_of(mod, req['shape'])
       before = [k for k, _ in cfg._REGISTRY.items()]  # pylint: disable=protected-access
       was_locked = bool(cfg.config_is_locked())
+      was_interactive = bool(cfg._INTERACTIVE_MODE)  # pylint: disable=protected-access
       allow = req['allow'] or None
       deny = req['deny'] or None
       if not req['lists_ok']:
@@ -260,6 +273,10 @@ class RegEngine(Engine):
         cands = [k for k in after if k == want] or [k for k in after if k == name or k.endswith('.' + name)]
         sel = cands[-1] if cands else '?'
       obs.append([T('Registered', sel, req['api'] == 'register'), keys])
+      if sel in held and held[sel] != req['shape'] and not was_interactive:
+        fails.append(('different-object-under-existing-name-accepted', 'outside interactive mode %s(%s) was accepted under the '
+                      'full name %r, which is held by %s' % (req['api'], req['shape'], sel, held[sel])))
+      held[sel] = req['shape']
       tags.append('%s:%s' % (req['api'], req['shape']))
       # ---- transparency checks on the implementation
       if req['api'] == 'configurable':
@@ -316,6 +333,19 @@ class RegEngine(Engine):
         if inspect.isfunction(obj):
           if (ret.__name__, ret.__doc__) != (obj.__name__, obj.__doc__) or str(inspect.signature(ret)) != str(inspect.signature(obj)):
             fails.append(('configurable-changed-metadata', req['shape']))
+      if req['shape'] in ('fn', 'builtin', 'fn_deco') and not cfg.config_is_locked():
+        # the registry's version of a plain callable: same name, docstring and signature, and it is what the selector, the
+        # original object and the version itself lead to
+        try:
+          h = gin.get_configurable(sel)
+          if (h.__name__, h.__doc__) != (obj.__name__, obj.__doc__) or str(inspect.signature(h)) != str(inspect.signature(obj)):
+            fails.append(('configurable-changed-metadata', '%s: registry version %s%s, original %s%s' % (
+                req['shape'], h.__name__, inspect.signature(h), obj.__name__, inspect.signature(obj))))
+          if gin.get_configurable(h) is not h or (req['shape'] != 'fn_deco' and gin.get_configurable(obj) is not h):
+            fails.append(('registry-version-not-reachable', '%s registered as %s: get_configurable(version / original) is not '
+                          'the version the selector yields' % (req['shape'], sel)))
+        except Exception as e:  # pylint: disable=broad-except
+          fails.append(('transparency-check-raised', '%s %s: %s: %s' % (req['api'], req['shape'], type(e).__name__, str(e)[:150])))
     cfg.exit_interactive_mode()
     return {'obs': obs, 'fails': fails[:3], 'nontrivial': nontrivial, 'tags': tags}
 
